@@ -27,7 +27,7 @@ func registerC08() {
 		Rule: "a history is a PRNG sequence of 40-200 calls drawn from Decode (8 option sets), DecodeChained, CheckIntegrity (both modes), DecodeHeader, DecodeHeaderAndFileID, " +
 			"Header.MarshalJSON, Encode of API-built Files, Encode of decoded Files (both byte orders), Encode into a writer that fails part-way and Encode of a File with an un-encodable string over a pool of device files, model streams (incl. every accumulated " +
 			"component source) and API-built Files; each history runs in its own process; after every call a digest of the result (canonical content / bytes written / error text) " +
-			"is compared with (a) an immediate repetition of the call and (b) the digest of the same call made FIRST in a fresh process (one process per distinct call); some Decode calls overwrite every number and slice element of the File they got back before the next call is made; every successful Encode of an API-built File is repeated on the same File value (same bytes) and followed by an Encode of an identical File into a buffer that already holds the first output, which must append the same bytes and leave the earlier ones alone. " +
+			"is compared with (a) an immediate repetition of the call and (b) the digest of the same call made FIRST in a fresh process (one process per distinct call); some Decode calls overwrite every number and slice element of the File they got back before the next call is made; every successful Encode of an API-built File is repeated on the same File value (same bytes), then on the same File value after its messages were edited in place (bytes of a never-encoded identical File), and followed by an Encode of an identical File into a buffer that already holds the first output, which must append the same bytes and leave the earlier ones alone. " +
 			"Non-trivial: a call preceded by at least one other call whose digest was compared with its fresh-process baseline; distinct by (history, position)",
 		Assume: []string{
 			"record.distance of records whose compressed_speed_distance expands is canonicalised through the defect predictor: a value equal to the prediction of known findings F5/F6 is replaced by the reference value and counted as KNOWN-FINDING; any other value stays and shows up as a digest mismatch",
@@ -284,6 +284,19 @@ func c08Call(id string, known map[string]int) (digest string, err error) {
 				var again bytes.Buffer
 				if e3 := fit.Encode(&again, f, archOrder(arg(2))); e3 != nil || !bytes.Equal(again.Bytes(), buf.Bytes()) {
 					callErr = fmt.Errorf("Encode of the same File value a second time: error %v, %d bytes where the first call wrote %d, or different bytes", e3, again.Len(), buf.Len())
+				}
+				// The caller edits messages of the File in place (same slices, same message
+				// objects, other field subsets) and encodes again: the bytes must be those of an
+				// identical File that was never encoded before.
+				if lib.EditInPlace(f, uint64(arg(1))) > 0 {
+					fresh := p.files[arg(1)]()
+					lib.EditInPlace(fresh, uint64(arg(1)))
+					var b1, b2 bytes.Buffer
+					e4 := fit.Encode(&b1, f, archOrder(arg(2)))
+					e5 := fit.Encode(&b2, fresh, archOrder(arg(2)))
+					if (e4 == nil) != (e5 == nil) || e4 == nil && !bytes.Equal(b1.Bytes(), b2.Bytes()) {
+						callErr = fmt.Errorf("Encode after the File was edited in place writes something else than Encode of an identical File that was never encoded before (errors %v / %v, %d / %d bytes)", e4, e5, b1.Len(), b2.Len())
+					}
 				}
 				g, de := fit.Decode(bytes.NewReader(buf.Bytes()))
 				out += "|" + canonContent(g, known) + "|" + lib.ErrText(de)
